@@ -185,6 +185,71 @@ def fan_requests(ctx, n_shapes):
     return reqs
 
 
+def dbl_requests(ctx, n_cases):
+    """The double-precision instantiations and the Paths overloads (SimplifyPath<double>, RDP<double>, TranslatePath<double>,
+    StripDuplicates<double>, TrimCollinear(PathD, precision), Ellipse(Rect), TransformPath): every 0..3-point path over the
+    4x4 lattice scaled by 1/8 (exact binary64 arithmetic) for SimplifyPath<double>, and seeded paths of all kinds both on
+    the 1/8 lattice and off it (x 0.1, x 1/3: inexact differences and products), compared bit for bit with the models."""
+    r = ctx.rng.fork(4)
+    reqs = []
+    import itertools
+    cells = [(x / 8.0, y / 8.0) for y in range(L) for x in range(L)]
+    for n in range(0, 4):
+        for p in itertools.product(cells, repeat=n):
+            for eps in (0.0, 0.125, 0.25):
+                reqs.append('SIMPD %s %d %s' % (hx(eps), (len(reqs) & 1), fmt_pathd(p)))
+    kinds = ['walk', 'dup', 'spike', 'ring', 'rand', 'line']
+    for i in range(n_cases):
+        kind = r.choice(kinds)
+        n = r.choice([0, 1, 2, 3, 4, 5, 5, 6, 7, 8, 10, 15, 30])
+        ip = gen_path(r, n, kind, 1)
+        f = r.choice([0.125, 0.125, 0.25, 0.1, 1.0 / 3.0, 1e-3, 7.0, 1 << 20])
+        ctx.hist('double_factor', 'lattice' if f in (0.125, 0.25, 7.0, 1 << 20) else 'inexact')
+        p = [(x * f, y * f) for x, y in ip]
+        ps = fmt_pathd(p)
+        eps = r.choice([0.0, 0.5, 1.0, 2.0, 10.0, 0.7, 1e200, float('inf')]) * f
+        c = r.below(2)
+        what = r.below(8)
+        if what < 2:
+            reqs.append('SIMPD %s %d %s' % (hx(eps), c, ps))
+        elif what < 4:
+            reqs.append('RDPD %s %s' % (hx(eps), ps))
+        elif what == 4:
+            prec = r.choice([0, 1, 2, 2, 3, 5, 8, -1, -2])
+            reqs.append('TRIMD %d %d %s' % (prec, c, ps))
+            reqs.append('TRIMD %d %d %s' % (2, c, fmt_pathd([(x * 0.01 * r.choice([1, 1, 25, 50]), y * 0.01) for x, y in ip])))
+        elif what == 5:
+            reqs.append('SDUPD %d %s' % (c, ps))
+            reqs.append('TRANSD %s %s %s' % (hx(r.range(-1000, 1000) * f), hx(r.range(-1000, 1000) / 7.0), ps))
+            reqs.append('TFDI %s' % fmt_pathd([(x * f * r.choice([1, 0.5, 1.5]), y * f) for x, y in ip]))
+            reqs.append('TFID %s' % fmt_path([(x << r.choice([0, 30, 55]), y * 3) for x, y in ip]))
+        elif what == 6:
+            others = [[(x * f, y * f) for x, y in gen_path(r, r.choice([0, 1, 3, 5, 6, 9]), r.choice(kinds), 1)] for _ in range(r.range(0, 2))]
+            psd = '%d %s' % (1 + len(others), ' '.join(fmt_pathd(q) for q in [p] + others))
+            reqs.append('SIMPSD %s %d %s' % (hx(eps), c, psd))
+            reqs.append('RDPSD %s %s' % (hx(eps), psd))
+            reqs.append('SDUPSD %d %s' % (c, psd))
+            reqs.append('TRANSSD %s %s %s' % (hx(0.1), hx(-3.5), psd))
+        else:
+            others = [gen_path(r, r.choice([0, 2, 5, 7]), r.choice(kinds), 1) for _ in range(r.range(0, 2))]
+            pss = '%d %s' % (1 + len(others), ' '.join(fmt_path(q) for q in [ip] + others))
+            ieps = r.choice(EPS_GRID)
+            reqs.append('SIMPS %s %d %s' % (hx(ieps), c, pss))
+            reqs.append('RDPS %s %s' % (hx(ieps), pss))
+            reqs.append('TRANSS %d %d %s' % (r.range(-1 << 40, 1 << 40), r.range(-99, 99), pss))
+            reqs.append('TFIDS %s' % pss)
+    for _ in range(max(60, n_cases // 20)):
+        l, t = r.range(-1000, 1000), r.range(-1000, 1000)
+        w, h = r.choice([0, 1, 2, 7, 20, 21, 333, 5000]), r.choice([0, 1, 3, 11, 40, 5001])
+        if r.chance(1, 8):
+            w = -w
+        steps = r.choice([0, 0, 1, 3, 4, 5, 8, 17, 64])
+        reqs.append('ELLR %d %d %d %d %d' % (l, t, l + w, t + h, steps))
+        fl, ft = l / 8.0, t * 0.1
+        reqs.append('ELLRD %s %s %s %s %d' % (hx(fl), hx(ft), hx(fl + w * 0.3), hx(ft + h / 4.0), steps))
+    return reqs
+
+
 def leaf_requests(ctx, n):
     """scalar leaves: float self-test, PerpendicDistFromLineSqrd, IsCollinear, Ellipse"""
     r = ctx.rng.fork(2)
@@ -458,6 +523,12 @@ def run(ctx):
     ctx.sample('SNEAR 0x1.9p+4 1 6 0 0 100 0 100 100 0 100 0 4 4 0')
     ctx.log('strip lattice (<=%d points) + %d fan-shape requests done, failing lines %d' % (nmax - 1, len(fans), res.nfail))
 
+    # 2c. the double-precision instantiations and the Paths overloads
+    dbl = dbl_requests(ctx, 3000 if ctx.quick else 30000)
+    run_requests(ctx, exe, orc, dbl, res)
+    ctx.sample('TRIMD 2 0 5 0x0p+0 0x0p+0 0x1p+0 0x0p+0 0x1p+1 0x0p+0 0x1p+1 0x1p+1 0x0p+0 0x1p+1')
+    ctx.log('%d PathD / Paths overload requests done, failing lines %d' % (len(dbl), res.nfail))
+
     # 3. seeded random longer paths
     rnd = random_requests(ctx, 6000 if ctx.quick else 60000)
     run_requests(ctx, exe, orc, rnd, res)
@@ -511,6 +582,8 @@ def run(ctx):
                        'random scalar cases for PerpendicDistFromLineSqrd/IsCollinear/Ellipse/double arithmetic; a line is non-trivial when the '
                        "implementation's output differs from its input (or for scalar leaves: always)" % (nmax, L, L, EPS_GRID, nmax - 1))
     ctx.assumptions += [
+        'TrimCollinear(PathD, precision): precision in -8..8 and |coordinate * 10^precision| inside the int64 range test of ScalePath '
+        '(outside, the library raises/returns an error: C11); std::pow(10, precision) is read back from the harness',
         'int64 differences taken by IsCollinear/PerpendicDistFromLineSqrd do not overflow (|coordinates| <= 2^62); models use unbounded Z',
         'epsilon >= 0 and not NaN (the quantifier of the property); +inf and values whose square overflows are included',
         'C20_rdp_bound assumes that no PerpendicDistFromLineSqrd value between vertices of the path is NaN (a NaN needs an overflowing '
